@@ -459,6 +459,11 @@ func runSpecCase(c Case) interface{} {
 			runs = append(runs, tagRun(oneSpecRun(d2, cont, strict), "reloaded"))
 		}
 	}
+	// a validator object that has already validated another document (with findings of its own, all references resolving)
+	// must say the same about this one as a new validator does
+	if d4, err := loadDoc(raw, via, dir, "d4"); err == nil && d4 != nil {
+		runs = append(runs, tagRun(usedValidatorRun(d4, strict), "usedvalidator"))
+	}
 	// more repetitions on demand (Go re-randomises every map range): corpus cases that need many orders
 	for i := 0; i < asInt(c["repeat"]); i++ {
 		runs = append(runs, tagRun(oneSpecRun(doc, false, strict), fmt.Sprintf("rep%d", i)))
@@ -475,6 +480,44 @@ func runSpecCase(c Case) interface{} {
 	out["specSame"] = string(before) == string(after)
 	out["rawSame"] = string(rawBefore) == string(doc.Raw())
 	out["runs"] = runs
+	return out
+}
+
+const primerDoc = `{"swagger":"2.0","info":{"title":"primer","version":"1"},"paths":{
+ "/alpha":{"get":{"operationId":"alphaOp","parameters":[{"name":"q","in":"query","type":"integer","default":"not-a-number"}],"responses":{"200":{"description":"d"}}},
+           "put":{"operationId":"alphaOp","responses":{"200":{"description":"d"}}}},
+ "/beta/{id}":{"get":{"operationId":"betaOp","parameters":[{"name":"id","in":"path","type":"string","required":true}],"responses":{"default":{"description":"d","schema":{"type":"string","example":7}}}}}}}`
+
+// usedValidatorRun validates doc (continue-on-errors) with a SpecValidator that has validated the primer document before
+func usedValidatorRun(doc *loads.Document, strict bool) (out map[string]interface{}) {
+	out = map[string]interface{}{"cont": true}
+	defer func() {
+		if r := recover(); r != nil {
+			out["panic"] = fmt.Sprint(r)
+			out["where"] = panicSite(string(debug.Stack()))
+		}
+	}()
+	primer, err := loads.Analyzed(json.RawMessage(primerDoc), "")
+	if err != nil {
+		panic("harness: primer document does not load: " + err.Error())
+	}
+	v := validate.NewSpecValidator(doc.Schema(), strfmt.Default)
+	v.SetContinueOnErrors(true)
+	v.Options.StrictPathParamUniqueness = strict
+	_, _ = v.Validate(primer)
+	res, warn := v.Validate(doc)
+	if res == nil || warn == nil {
+		out["nilResult"] = true
+		return out
+	}
+	out["valid"] = res.IsValid()
+	out["errors"] = msgStrings(res.Errors)
+	out["warnings"] = msgStrings(res.Warnings)
+	out["errorsC"] = canonNamed(res.Errors)
+	out["warningsC"] = canonNamed(res.Warnings)
+	out["wErrors"] = msgStrings(warn.Errors)
+	out["wWarnings"] = msgStrings(warn.Warnings)
+	out["dup"] = hasDup(res.Errors) || hasDup(res.Warnings)
 	return out
 }
 
